@@ -10,6 +10,35 @@ TB = ("Lean 4.33 kernel; axioms propext/Classical.choice/Quot.sound only (audite
       "tables regenerated from the C source through the C compiler on every run")
 
 CHECKS = {
+    "C01": dict(
+        text=("Theorems (Props/C01.lean, 20) over a transcription of ovni_payload_add/ovni_ev_add/ovni_ev_add_jumbo/"
+              "add_flush_events/ovni_flush/mark emitters with the capacity as a parameter (> 24, so every alignment of "
+              "the 2 MiB boundary): payload sizes 0,2..16 round-trip through the size nibble (payload_roundtrip); every "
+              "sequence of library records decodes back event by event, tiling the bytes (decode_encode, decode_stream, "
+              "file_decodes); each API call appends exactly the record handed over, followed only by payload-free OF[/OF] "
+              "markers (step_fidelity), lifted to whole programs (run_fidelity) and to init;ops;flush;free: the file "
+              "starts with the header and its user events are exactly the emitted ones, once, in order "
+              "(stream_fidelity); evlen is exact and < capacity in every reachable state (buffer_in_bounds). "
+              "Tie: the real ovni.c+common.c+parson.c compiled with ASan/UBSan into a harness with an interposed clock; "
+              "random programs and a systematic sweep of the fill level around the boundary; the stream file must equal "
+              "the bytes predicted by the Lean model (its own encoder) and satisfy an independent Python decoder/oracle."),
+        note=TB + "; clock replaced by a deterministic counter; write() assumed to complete (C10 covers faults); the "
+             "buffer is modelled as a list of records whose encoded length is proved equal to evlen",
+        technique="Lean 4 invariant proofs over a state-machine model of the staging buffer + byte-exact differential run against libovni",
+        design="DESIGN.md §5 C01"),
+    "C02": dict(
+        text=("Theorems (Props/C02.lean, 20): for every capacity > 24 and every protocol-conformant program (clocks read "
+              "from the library clock right before each emit, zeroed event structs, no forged OF codes) that returns, the "
+              "file has non-decreasing clocks, properly paired non-nested flush markers, well-formed records, and decodes "
+              "exactly (conformant_stream_valid, via the invariant step_valid/run_valid); the statement is proved false "
+              "for the code before the repair (nested_markers_before_fix, a `decide` witness replayed on libovni, see "
+              "KNOWN_FINDINGS.txt 'fixed'). Tie: as C01, plus an independent validity oracle (tiling, clocks, marker "
+              "pairing, metadata completeness) and the real `ovniemu -l` accepting every generated trace; a sweep of "
+              "jumbo sizes within 45 bytes of the maximum."),
+        note=TB + "; emulator acceptance is established by running the real ovniemu on every generated trace (not by a "
+             "theorem about the emulator); metadata completeness is checked on the files, not proved",
+        technique="Lean 4 invariant proof (clock order + marker balance) over the buffer model + differential run + ovniemu acceptance",
+        design="DESIGN.md §5 C02"),
     "C14": dict(
         text=("Theorems (Props/C14.lean, 22): compatibility iff same major and minor<=; well-formed a.b.c[-suffix] "
               "parses to (a,b,c); NULL, >=64 chars, missing field, non-numeric field, negative field are refused; "
